@@ -22,7 +22,6 @@ import (
 	"io/ioutil"
 	"sync"
 
-	"github.com/henrylee2cn/erpc/v6/socket"
 	"github.com/henrylee2cn/erpc/v6/utils"
 	"github.com/henrylee2cn/erpc/v6/xfer"
 )
@@ -108,10 +107,13 @@ func (g *Gzip) OnUnpack(src []byte) (dest []byte, err error) {
 	if err == nil {
 		// never inflate beyond the per-message read limit (a small frame must not
 		// expand into an unbounded buffer)
-		limit := int64(socket.MessageSizeLimit())
-		dest, err = ioutil.ReadAll(io.LimitReader(gr, limit+1))
-		if err == nil && int64(len(dest)) > limit {
-			dest, err = nil, socket.ErrExceedMessageSizeLimit
+		if limit := int64(xfer.SizeLimit()); limit > 0 {
+			dest, err = ioutil.ReadAll(io.LimitReader(gr, limit+1))
+			if err == nil && int64(len(dest)) > limit {
+				dest, err = nil, xfer.ErrExceedSizeLimit
+			}
+		} else {
+			dest, err = ioutil.ReadAll(gr)
 		}
 	}
 	gr.Close()
